@@ -3,6 +3,7 @@ CONSTANTS
   Sessions = {"L1", "M1"}
   Legacy = {"L1"}
   InitOn = {"L1", "M1"}
+  InitSub = {}
   Kinds = {"tools"}
   NotifOf <- NotifStd
   Uris = {}
@@ -22,5 +23,6 @@ CONSTANTS
   MinSteps = 1
   MaxSteps = 9
   Bias = FALSE
+  GenOps = {"change", "tchange", "updated", "connect", "close", "subscribe", "unsubscribe", "list", "tick", "hold", "release"}
 INVARIANTS Export NeverLost OnlyEntitled NoneWhenDisabled UpdatedExactlySubscribers Fresh ForgottenOnClose
 CHECK_DEADLOCK FALSE
